@@ -45,6 +45,7 @@ def InvC (cfg : Config) (s : St) : Prop :=
   (s.stopFlag = true → s.lpc = 5 ∨ s.lpc = 6 ∨ s.lpc = 12 ∨ s.lpc = 13) ∧
   (s.lpc ≥ 12 → s.stopFlag = true) ∧
   (s.stopEnq = true → s.stopReq = true) ∧
+  (s.stopEnq = true → s.cbReg = true ∨ s.lpc ≥ 3) ∧
   s.spc ≤ 5 ∧ s.lpc ≤ 13
 
 /-- Layer D: which items are in the enqueue history. -/
@@ -53,7 +54,7 @@ def InvD (cfg : Config) (s : St) : Prop :=
   (∀ it, it ∈ s.enq → (it.1 < nprod cfg ∧ it.2 < cnt (getP s it.1)) ∨ (it = stopItem cfg ∧ s.stopEnq = true)) ∧
   (∀ p, p < nprod cfg → ∀ j, j < cnt (getP s p) → (p, j) ∈ s.enq) ∧
   (s.stopEnq = true → stopItem cfg ∈ s.enq) ∧
-  (∀ p, p < nprod cfg → cnt (getP s p) ≤ quotaOf cfg p)
+  (∀ p, p < nprod cfg → (getP s p).k + (if (getP s p).pc = 0 then 0 else 1) ≤ quotaOf cfg p)
 
 /-- Layer E: when stop is requested only after the producers returned, the stop operation is the
     last item ever enqueued. -/
